@@ -24,8 +24,8 @@ CHECKS = {
     "C05": seq(["TestC05"]),
     "C06": seq(["TestC06"]),
     "C07": seq(["TestC07"]),
-    "C08": seq(["TestC08Seq"]),
-    "C09": seq(["TestC09Seq"]),
+    "C08": seq(["TestC08Seq", "TestC08Order"]),
+    "C09": seq(["TestC09Seq", "TestC09Gap"]),
     "C10": seq(["TestC10"], qchecks=14, tchecks=150, level="fault_enumeration"),
     "C11": seq(["TestC11"], qchecks=60, tchecks=1500),
     "C12": seq(["TestC12"], qchecks=80, tchecks=1200),
